@@ -30,10 +30,6 @@ Definition segment_align_stmts (a : option N) : list stmt :=
 Definition outsec_subaligns (l : list stmt) : list (option N) :=
   flat_map (fun s => match s with SOutSec _ _ _ _ sub _ => [sub] | _ => [] end) l.
 
-(* the placements that a piece of execution appended to l_placed *)
-Definition appended (before after : list placement) (new : list placement) : Prop :=
-  after = (before ++ new)%list.
-
 (* addresses never decrease along the list *)
 Definition nondecreasing (l : list Z) : Prop := StronglySorted Z.le l.
 
